@@ -108,3 +108,157 @@ package websocket
 //@ loop 5 invariant pos&3 == (old(pos) + len(old(b)) - len(b) + rangeindex + 1)&3
 //@ loop 5 invariant forall(j, 0, len(old(b)) - len(b) + rangeindex + 1, maskedAt(old(b), key, old(pos), j))
 //@ loop 5 invariant forall(j, len(old(b)) - len(b) + rangeindex + 1, len(old(b)), untouchedAt(old(b), j))
+
+// ---------------------------------------------------------------------------
+// conn.go: reader
+//
+// Ghost state (exists only in the verifier).  The byte stream lives on the
+// bufio.Reader (see /verif/contracts/extern.spec): c.br.g_in is everything the
+// transport will deliver, c.br.g_rd how much of it has been consumed.  The
+// header of the next frame is at offset  h = c.br.g_rd + c.readRemaining.
+//
+//	g_ctlCount/g_ctlType/g_ctlCode  control frames handed to WriteControl: how
+//	                                many, type of the last one, its first two
+//	                                payload bytes as a big-endian number (or -1)
+//	g_hcalls/g_hop                  handler invocations made by the reader and
+//	                                the opcode of the last one
+//	g_mlen                          payload bytes of the wire message in progress
+//	                                (reset by a TEXT/BINARY header, not by API calls)
+
+//@ ghostfield Conn.g_ctlCount int
+//@ ghostfield Conn.g_ctlType int
+//@ ghostfield Conn.g_ctlCode int
+//@ ghostfield Conn.g_hcalls int
+//@ ghostfield Conn.g_hop int
+//@ ghostfield Conn.g_mlen int
+
+//@ specfn rfc_violates(stream, int, bool, bool, bool) bool = "rfc.violates"
+//@ specfn rfc_opcode(stream, int) int = "rfc.opcodeI"
+//@ specfn rfc_fin(stream, int) bool = "rfc.fin"
+//@ specfn rfc_rsv1(stream, int) bool = "rfc.rsv1"
+//@ specfn rfc_masked(stream, int) bool = "rfc.masked"
+//@ specfn rfc_payLen(stream, int) int = "rfc.payLen"
+//@ specfn rfc_hdrLen(stream, int) int = "rfc.hdrLen"
+//@ specfn rfc_isData(stream, int) bool = "rfc.isData"
+//@ specfn rfc_isControl(stream, int) bool = "rfc.isControl"
+//@ specfn rfc_lenTopBit(stream, int) bool = "rfc.lenTopBit"
+//@ specfn rfc_closeMustAccept(int) bool = "rfc.closeMustAccept"
+//@ specfn rfc_closeMustReject(int) bool = "rfc.closeMustReject"
+
+//@ modset BrMods(c) := c.br.g_rd, c.br.g_buffered, regionid(c.br.g_buf)
+//@ modset CtlMods(c) := c.g_ctlCount, c.g_ctlType, c.g_ctlCode, c.writeErr
+//@ modset ReaderMods(c) := c.readRemaining, c.readFinal, c.readLength, c.readMaskPos, c.readMaskKey, c.readDecompress, c.g_hcalls, c.g_hop, c.g_mlen, BrMods(c), CtlMods(c)
+
+//@ pred RInv(c) := c.br != nil && c.br.g_buf > 0 && c.readRemaining >= 0 && c.br.g_size >= 125 && c.br.g_buffered >= 0 && c.br.g_rd >= 0 && \
+//@     0 <= c.readMaskPos && c.readMaskPos <= 3 && iff(c.newDecompressionReader != nil, c.newCompressionWriter != nil)
+
+//@ func (*Conn).read
+//@ tags C03 C04 C05 C07
+//@ requires c.br != nil && n >= 0 && c.br.g_buffered >= 0
+//@ modifies BrMods(c)
+//@ ensures[len] len(r0) <= n && iff(err == nil, len(r0) == n)
+//@ ensures[advance] c.br.g_rd == old(c.br.g_rd) + len(r0) && c.br.g_buffered >= 0
+//@ ensures[bytes] forall(i, 0, len(r0), r0[i] == c.br.g_in[old(c.br.g_rd) + i])
+//@ ensures[C05.noeof] err != io.EOF
+//@ ensures[alias] region(r0) == c.br.g_buf
+
+//@ func (*Conn).setReadRemaining
+//@ tags C03 C04 C06
+//@ modifies c.readRemaining
+//@ ensures imp(n < 0, result == ErrReadLimit && c.readRemaining == old(c.readRemaining))
+//@ ensures imp(n >= 0, result == nil && c.readRemaining == n)
+
+// WriteControl as seen by the reader paths (the writer-side contract is proved
+// further down; this is the same function, one contract).
+//@ func (*Conn).WriteControl
+//@ trusted
+//@ modifies CtlMods(c)
+//@ ensures[ctl] c.g_ctlCount == old(c.g_ctlCount) + 1 && c.g_ctlType == messageType
+//@ ensures[ctlcode] c.g_ctlCode == ite(len(data) >= 2, b2i(data[0])*256 + b2i(data[1]), 0 - 1)
+
+//@ func (*Conn).handleProtocolError
+//@ tags C04 C07
+//@ modifies CtlMods(c)
+//@ ensures[C04.err] result != nil && result != io.EOF
+//@ ensures[C04.close1002] c.g_ctlCount == old(c.g_ctlCount) + 1 && c.g_ctlType == 8 && c.g_ctlCode == 1002
+
+// Application-supplied handlers: arbitrary code that may use the write side
+// (the default ones call WriteControl) but, as doc.go requires, does not call
+// the read methods.
+//@ func field:Conn.handlePong
+//@ params c appData
+//@ results err
+//@ trusted
+//@ modifies CtlMods(c)
+//@ func field:Conn.handlePing
+//@ params c appData
+//@ results err
+//@ trusted
+//@ modifies CtlMods(c)
+//@ func field:Conn.handleClose
+//@ params c code text
+//@ results err
+//@ trusted
+//@ modifies CtlMods(c)
+
+// advanceFrame.  h is the offset of the next frame header, s the stream.
+//   hdrDone: the whole header (2 + extended length + mask key) was read.
+//   newMlen: length of the wire message after this frame.
+//@ pred dataOK(s, h, c, inMsg) := !rfc_violates(s, h, c.isServer, inMsg, c.newDecompressionReader != nil) && rfc_isData(s, h) && !rfc_lenTopBit(s, h)
+//@ pred newMlen(s, h, m0) := ite(rfc_opcode(s, h) != 0, rfc_payLen(s, h), m0 + rfc_payLen(s, h))
+//@ pred unmaskedAt(s, isServer, ps, i) := ite(isServer, s[ps+i] ^ s[ps-4+(i&3)], s[ps+i])
+
+//@ func (*Conn).advanceFrame
+//@ tags C03 C04 C05 C06 C07 C08
+//@ let h := c.br.g_rd + c.readRemaining
+//@ let s := c.br.g_in
+//@ let inMsg := !c.readFinal
+//@ let len0 := c.readLength
+//@ let mlen0 := c.g_mlen
+//@ requires RInv(c) && c.readErr == nil && c.g_mlen >= 0 && c.readLength >= 0 && c.readLength <= c.g_mlen
+//@ modifies ReaderMods(c)
+//@ ensures[inv] imp(err == nil, RInv(c) && c.g_mlen >= 0 && c.readLength >= 0 && c.readLength <= c.g_mlen)
+//@ ensures[noframe] imp(err != nil, r0 == 0 - 1)
+//@ ensures[progress] c.br.g_rd >= old(c.br.g_rd) && imp(err == nil, c.br.g_rd >= h + 2)
+//@ ensures[C04.reject] imp(c.br.g_rd >= h+2 && rfc_violates(s, h, c.isServer, inMsg, c.newDecompressionReader != nil), \
+//@     err != nil && err != io.EOF && c.br.g_rd == h+2 && c.g_hcalls == old(c.g_hcalls) && \
+//@     c.g_ctlCount == old(c.g_ctlCount)+1 && c.g_ctlType == 8 && c.g_ctlCode == 1002)
+//@ ensures[C03.hdr] imp(err == nil && (r0 == 0 || r0 == 1 || r0 == 2), \
+//@     r0 == rfc_opcode(s, h) && c.br.g_rd == h + rfc_hdrLen(s, h) && c.readRemaining == rfc_payLen(s, h) && \
+//@     c.readFinal == rfc_fin(s, h) && c.readDecompress == rfc_rsv1(s, h) && c.g_hcalls == old(c.g_hcalls))
+//@ ensures[C03.key] imp(err == nil && (r0 == 0 || r0 == 1 || r0 == 2) && c.isServer, \
+//@     c.readMaskPos == 0 && forall(k, 0, 4, c.readMaskKey[k] == s[c.br.g_rd - 4 + k]))
+//@ ensures[C03.nokey] imp(err == nil && !c.isServer, c.readMaskPos == old(c.readMaskPos))
+//@ ensures[C06.exact] imp(c.br.g_rd >= h + rfc_hdrLen(s, h) && dataOK(s, h, c, inMsg) && \
+//@     newMlen(s, h, mlen0) <= 9223372036854775807 && (c.readLimit <= 0 || newMlen(s, h, mlen0) <= c.readLimit), err == nil)
+//@ ensures[C06.refuse] imp(c.br.g_rd >= h + rfc_hdrLen(s, h) && dataOK(s, h, c, inMsg) && c.readLimit > 0 && \
+//@     newMlen(s, h, len0) <= 9223372036854775807 && newMlen(s, h, len0) > c.readLimit, \
+//@     err == ErrReadLimit && c.br.g_rd == h + rfc_hdrLen(s, h) && c.g_hcalls == old(c.g_hcalls) && \
+//@     c.g_ctlCount == old(c.g_ctlCount)+1 && c.g_ctlType == 8 && c.g_ctlCode == 1009)
+//@ ensures[C06.topbit] imp(c.br.g_rd >= h + 10 && !rfc_violates(s, h, c.isServer, inMsg, c.newDecompressionReader != nil) && rfc_lenTopBit(s, h), \
+//@     err == ErrReadLimit && c.br.g_rd == h + 10 && c.g_hcalls == old(c.g_hcalls))
+//@ ensures[C06.wrap] imp(c.br.g_rd >= h + rfc_hdrLen(s, h) && dataOK(s, h, c, inMsg) && len0 + rfc_payLen(s, h) > 9223372036854775807, \
+//@     err == ErrReadLimit && c.br.g_rd == h + rfc_hdrLen(s, h))
+//@ ensures[C05.eof] imp(err == io.EOF, (old(c.readRemaining) > 0 && c.br.g_rd < h) || c.g_hcalls == old(c.g_hcalls) + 1)
+//@ ensures[C08.dispatch] imp(c.br.g_rd >= h + rfc_hdrLen(s, h) + rfc_payLen(s, h) && !rfc_violates(s, h, c.isServer, inMsg, c.newDecompressionReader != nil) && \
+//@     (rfc_opcode(s, h) == 9 || rfc_opcode(s, h) == 10 || (rfc_opcode(s, h) == 8 && rfc_payLen(s, h) == 0)), \
+//@     c.g_hcalls == old(c.g_hcalls) + 1 && c.g_hop == rfc_opcode(s, h) && c.br.g_rd == h + rfc_hdrLen(s, h) + rfc_payLen(s, h))
+//@ ensures[C08.datastate] imp(err == nil && (r0 == 9 || r0 == 10), \
+//@     c.readFinal == old(c.readFinal) && c.readLength == old(c.readLength) && c.g_mlen == old(c.g_mlen) && c.readRemaining == 0 && r0 == rfc_opcode(s, h))
+//@ ensures[C08.closeerr] imp(c.br.g_rd >= h + 2 && !rfc_violates(s, h, c.isServer, inMsg, c.newDecompressionReader != nil) && rfc_opcode(s, h) == 8, err != nil)
+//@ ensures[C04.closecode] imp(c.br.g_rd >= h + rfc_hdrLen(s, h) + rfc_payLen(s, h) && !rfc_violates(s, h, c.isServer, inMsg, c.newDecompressionReader != nil) && \
+//@     rfc_opcode(s, h) == 8 && rfc_payLen(s, h) >= 2 && rfc_closeMustReject(b2i(unmaskedAt(s, c.isServer, h + rfc_hdrLen(s, h), 0))*256 + b2i(unmaskedAt(s, c.isServer, h + rfc_hdrLen(s, h), 1))), \
+//@     err != nil && c.g_hcalls == old(c.g_hcalls) && c.g_ctlCount == old(c.g_ctlCount)+1 && c.g_ctlType == 8 && c.g_ctlCode == 1002)
+//@ ghost at exit when err == nil && (r0 == 1 || r0 == 2): c.g_mlen := c.readRemaining
+//@ ghost at exit when err == nil && r0 == 0: c.g_mlen := old(c.g_mlen) + c.readRemaining
+//@ ghost after call:handlePong#1: c.g_hcalls := c.g_hcalls + 1
+//@ ghost after call:handlePong#1: c.g_hop := 10
+//@ ghost after call:handlePing#1: c.g_hcalls := c.g_hcalls + 1
+//@ ghost after call:handlePing#1: c.g_hop := 9
+//@ ghost after call:handleClose#1: c.g_hcalls := c.g_hcalls + 1
+//@ ghost after call:handleClose#1: c.g_hop := 8
+//@ assert at call:handlePong#1[C08.payload]: len(arg1) == rfc_payLen(s, h) && forall(i, 0, len(arg1), arg1[i] == unmaskedAt(s, c.isServer, h + rfc_hdrLen(s, h), i))
+//@ assert at call:handlePing#1[C08.payload]: len(arg1) == rfc_payLen(s, h) && forall(i, 0, len(arg1), arg1[i] == unmaskedAt(s, c.isServer, h + rfc_hdrLen(s, h), i))
+//@ assert at call:handleClose#1[C08.closeargs]: imp(rfc_payLen(s, h) == 0, arg1 == 1005 && len(arg2) == 0) && \
+//@     imp(rfc_payLen(s, h) >= 2, arg1 == b2i(unmaskedAt(s, c.isServer, h + rfc_hdrLen(s, h), 0))*256 + b2i(unmaskedAt(s, c.isServer, h + rfc_hdrLen(s, h), 1)) && \
+//@         len(arg2) == rfc_payLen(s, h) - 2 && forall(i, 0, len(arg2), arg2[i] == unmaskedAt(s, c.isServer, h + rfc_hdrLen(s, h), i + 2)))
